@@ -71,6 +71,8 @@ class Ctx(object):
 
     def expect_min(self, n, what='instances'):
         have = self.counts.get(self.current_rule, 0)
+        if any(v.rule == self.current_rule for v in self.violations):
+            return          # a violation is a more useful answer than "too few instances"
         if have < n:
             raise AnalysisError('%s: found %d %s, at least %d were confirmed by hand on the pinned tree '
                                 '(a rule that matches nothing would pass vacuously)' % (self.current_rule, have, what, n))
